@@ -40,6 +40,12 @@ class Site:
         return self.fw.fn.qname
 
 
+def copy_elsewhere(sites, s):
+    """is there a census site for the same construct (same source line, same text) in another function — the inlined copy of a
+    helper's statement in one of its callers?  Only then may the helper's own, context-free copy be left to the callers."""
+    return any(o is not s and o.fw.fn is not s.fw.fn and o.kind == s.kind and o.ev.line == s.ev.line and o.what == s.what for o in sites)
+
+
 def census(cx, fns):
     out = []
     for f in fns:
@@ -89,8 +95,56 @@ class Discharger:
     def tm(self, fw):
         return self.cx.gm.terms_of(fw)
 
+    def fresh_loop_counter(self, s, e):
+        """is `e` a local counter (integer-literal initialiser, only ever `+= 1`) used inside a recognised fresh-name search loop?
+        Such a loop runs at most (number of generic parameters + 1) times, so the counter stays far below any overflow."""
+        e = strip_refs(e)
+        if e['k'] != 'Path' or len(e['path']['segs']) != 1:
+            return None
+        d = s.ev.scope.lookup(e['path']['s'])
+        if d is None or d.kind != 'let' or d.init is None or d.init['k'] != 'Lit' or d.init['lit'].get('k') != 'Int':
+            return None
+        for a in d.assigns:
+            v = a.value
+            if not (getattr(a, 'compound', False) and v['k'] == 'Binary' and v['op'] == '+=' and v['r_']['k'] == 'Lit' and v['r_']['lit'].get('digits') == '1'):
+                return None
+        loops = [c for c in s.ev.ctx if c['k'] in ('loop', 'while')]
+        if not loops:
+            return None
+        lev = [x for x in s.fw.events if x.kind == 'loop' and getattr(x, 'entry', None) and x.entry['id'] == loops[-1]['id']]
+        if not lev or not fresh_name_loop_ok(s.fw, lev[0], self.cx):
+            return None
+        try:
+            return int(d.init['lit'].get('digits'))
+        except Exception:
+            return None
+
+    def r_fresh_loop(self, s):
+        import re
+        if s.kind == 'arith':
+            e = s.ev.node
+            if e['k'] == 'Binary' and e['op'] == '+=' and e['r_']['k'] == 'Lit' and e['r_']['lit'].get('digits') == '1' and self.fresh_loop_counter(s, e['l_']) is not None:
+                return ('R8-fresh-loop-counter', 'counter of a fresh-name search: the loop ends after at most (#generic parameters + 1) iterations')
+        if s.kind == 'method' and s.ev.kind == 'mcall' and s.ev.method == 'repeat' and len(s.ev.args) == 1:
+            r = strip_refs(s.ev.recv)
+            if r['k'] == 'Lit' and r['lit'].get('k') == 'Str' and len(r['lit'].get('v') or '') <= 8 and self.fresh_loop_counter(s, s.ev.args[0]) is not None:
+                return ('R8-fresh-loop-repeat', 'a short literal repeated (counter of a fresh-name search) times: bounded by the number of generic parameters')
+        if s.kind == 'format_ident':
+            args = s.ev.mac.get('args') or []
+            if len(args) == 2 and args[0]['k'] == 'Lit' and args[0]['lit'].get('v') == '{}':
+                a = strip_refs(args[1])
+                if a['k'] == 'MethodCall' and a['method'] == 'repeat' and len(a['args']) == 1:
+                    r = strip_refs(a['recv'])
+                    n0 = self.fresh_loop_counter(s, a['args'][0])
+                    if r['k'] == 'Lit' and r['lit'].get('k') == 'Str' and re.fullmatch(r'[A-Za-z_]+', r['lit'].get('v') or '') and r['lit']['v'] != '_' and n0 is not None and n0 >= 1:
+                        return ('R8-fresh-loop-ident', 'identifier characters repeated at least once: a valid identifier')
+        return None
+
     def discharge(self, s):
         """returns (rule name, explanation) or None"""
+        r8 = self.r_fresh_loop(s)
+        if r8:
+            return r8
         for rule in (self.r_get_ident, self.r_parse2, self.r_named_ident, self.r_len1, self.r_assert, self.r_unreachable_nothing,
                      self.r_insert_str, self.r_map_insert, self.r_arith, self.r_index, self.r_format_ident, self.r_roundtrip,
                      self.r_ident_new):
@@ -631,6 +685,10 @@ def fresh_name_loop_ok(fw, ev, cx=None):
         # the membership test may live in a helper: "some generic parameter is called <candidate>" (finite parameter list)
         from .c19 import exists_param_named
         tests = exists_param_named(cx, fw, cond, 0, ev.scope) is not None
+    if grows and not tests and cx is not None and cond is None:
+        from .c19 import check_fresh_provider
+        # `loop { let c = F(state); if !taken(c) { break c; } grow(state); }`: the provider rule of C19 checks exactly that shape
+        return check_fresh_provider(cx, fw.fn)
     if not (grows and tests):
         return False
     # which variables does the body extend / re-assign?
@@ -716,6 +774,10 @@ def run(cx, tier='quick'):
         if r:
             by_rule[r[0]] = by_rule.get(r[0], 0) + 1
             rep.ok('PANIC', '%s|%s|%s' % (s.where, inst, ctx_hash(s)), {'file': s.fw.fn.file, 'line': s.ev.line, 'site': s.what, 'discharged_by': r[0], 'why': r[1]})
+        elif id(s.fw.fn) in getattr(cx.crate, 'fully_inlined', ()) and copy_elsewhere(sites, s):
+            # a private helper every call of which has been inlined (N8): the copy of this site in each caller is censused there, with
+            # the caller's knowledge about the arguments; the helper's own body is not reachable in any other way
+            rep.ok('PANIC', '%s|%s|%s' % (s.where, inst, ctx_hash(s)), {'file': s.fw.fn.file, 'line': s.ev.line, 'site': s.what, 'discharged_by': 'inlined-into-all-callers'})
         else:
             rep.bad('PANIC', s.where, inst,
                     'panic-capable site with no discharge proof: `%s` (context: %s)' % (s.what, ctx_s(s.ev.ctx)[:300] or 'unconditional'),
